@@ -250,7 +250,7 @@ func gmRead(data []byte) string {
 		}
 		ch <- cls
 	}()
-	return waitOrRunaway(ch, 10*time.Second)
+	return waitOrRunaway(ch, 30*time.Second)
 }
 
 // gmWalk reads data, numbers the elements in document order with the harness's own recursion,
